@@ -2,6 +2,18 @@
 
 package slip
 
+// Transfer is implemented by an Object that a form returns to transfer
+// control to a place outside the function being called, such as the result
+// of the go function. The remaining forms of a function body are not
+// evaluated and the object is returned to the caller which passes it on
+// until the target is reached.
+type Transfer interface {
+	Object
+
+	// Transfer identifies the object as a transfer of control.
+	Transfer()
+}
+
 // ReturnResult is returned by the return-from function.
 type ReturnResult struct {
 	// Tag can be either a Symbol or nil and identifies the block name that
